@@ -5,6 +5,11 @@ ranges the REAL classes declare), the harness executes every request on the real
 litex.soc.cores.clock (harness/families/pll.py) and TLC judges the recorded outcomes with exact integer
 arithmetic (specs/pll/PllConfig.tla; clauses MeetsRequest, InsideRanges, InstanceEqualsConfig,
 RefusedOnlyIfInfeasible; ModelComplete is a self check of the specification's own search).
+
+Besides the sampled classes and the "single"/"full" enumerations, PllRequests enumerates the band-edge requests
+(MODE "edge", class 9): output frequencies around VCO_min / largest divider, VCO_max / smallest divider and the
+declared ends of the legal output range, with margins up to 10 %, i.e. the requests whose only (or best) settings
+sit at the very end of a declared divider range.
 """
 import json
 import multiprocessing
@@ -37,25 +42,25 @@ def _g(name, helpers, sample, single=0, full=0, edge=0, edge_outs=1):
 
 PLAN = {
     "quick": [
-        _g("xilinx7", ["S7PLL", "S7MMCM"], 220, edge=5000),
-        _g("lattice", ["ECP5PLL", "iCE40PLL"], 260, full=2000, edge=5000),
-        _g("xilinx6us", ["S6PLL", "S6DCM"] + _XUS, 120, edge=5000),
-        _g("uspmmcm", ["USPMMCM"], 30, edge=5000),
-        _g("nx", ["NXPLL"], 60, edge=5000),
-        _g("intel", _INTEL, 80, edge=5000),
-        _g("gowin", _GOWIN, 180, edge=5000),
-        _g("trion", ["TRIONPLL"], 60, edge=5000),
+        _g("xilinx7", ["S7PLL", "S7MMCM"], 220, edge=60),
+        _g("lattice", ["ECP5PLL", "iCE40PLL"], 260, full=2000, edge=40),
+        _g("xilinx6us", ["S6PLL", "S6DCM"] + _XUS, 120, edge=100),
+        _g("uspmmcm", ["USPMMCM"], 30, edge=24),
+        _g("nx", ["NXPLL"], 60, edge=16),
+        _g("intel", _INTEL, 80, edge=120),
+        _g("gowin", _GOWIN, 180, edge=100),
+        _g("trion", ["TRIONPLL"], 60, edge=18),
     ],
     "thorough": [
-        _g("xilinx7", ["S7PLL", "S7MMCM"], 2500, single=3000, full=2500),
-        _g("lattice", ["ECP5PLL", "iCE40PLL"], 3000, single=3000, full=2500),
-        _g("xilinx6", ["S6PLL", "S6DCM"], 1200, single=1500, full=1000),
-        _g("xilinxus", _XUS, 1500, single=1500, full=1500),
-        _g("uspmmcm", ["USPMMCM"], 500),
-        _g("nx", ["NXPLL"], 800, single=600, full=600),
-        _g("intel", _INTEL, 1500, full=1000),
-        _g("gowin", _GOWIN, 2000, single=1500, full=800),
-        _g("trion", ["TRIONPLL"], 800, single=600),
+        _g("xilinx7", ["S7PLL", "S7MMCM"], 2500, single=3000, full=2500, edge=800, edge_outs=2),
+        _g("lattice", ["ECP5PLL", "iCE40PLL"], 3000, single=3000, full=2500, edge=840, edge_outs=2),
+        _g("xilinx6", ["S6PLL", "S6DCM"], 1200, single=1500, full=1000, edge=600, edge_outs=2),
+        _g("xilinxus", _XUS, 1500, single=1500, full=1500, edge=600, edge_outs=2),
+        _g("uspmmcm", ["USPMMCM"], 500, edge=200, edge_outs=2),
+        _g("nx", ["NXPLL"], 800, single=600, full=600, edge=200, edge_outs=2),
+        _g("intel", _INTEL, 1500, full=1000, edge=1400, edge_outs=2),
+        _g("gowin", _GOWIN, 2000, single=1500, full=800, edge=1000, edge_outs=2),
+        _g("trion", ["TRIONPLL"], 800, single=600, edge=72, edge_outs=2),
     ],
 }
 CHUNK = 4000      # cases per judging TLC run
@@ -120,6 +125,14 @@ def gen_requests(devs, mode, num, seed, scratch, maxouts=7):
 
 def _key(r):
     return json.dumps(r, sort_keys=True)
+
+
+def _thin(ex, cap):
+    """deterministic thinning of a (sorted) exhaustive enumeration to at most cap requests: fixed stride"""
+    if len(ex) <= cap:
+        return ex
+    step = len(ex) / cap
+    return [ex[int(i * step)] for i in range(cap)]
 
 
 # ------------------------------------------------------------------------------------------ judge (TLC)
@@ -290,6 +303,11 @@ def _run(prop, report, tier, seed, scratch):
     devidx = {(d["helper"], d["variant"]): d for d in devs}
     report.assume("frequencies are multiples of 125 kHz up to 800 MHz; margins in {0, 1e-4, 1e-3, 1e-2}; vco_margin in "
                   "{0, 5%}; phases in {0,45,90,135,180,270}")
+    report.assume("band-edge requests (class 9 of PllRequests): the 125 kHz grid points around VCO_min / largest output "
+                  "divider and VCO_max / smallest output divider and the declared ends of the legal output range, all "
+                  "computed by TLC from the declared ranges, margins in {1, 2, 5, 10} %, phase 0; enumerated exhaustively "
+                  "for 1..edge_outs outputs from clkin in {25, 50, 100} MHz (thinned to the cap of the tier by a fixed "
+                  "stride) and drawn as one more class of the sampled requests")
     report.assume("the device ranges are those the real classes declare at run time (class/instance attributes, "
                   "get_*_range()); where a helper declares a range only as a literal inside compute_config the harness "
                   "copies that literal: " + "; ".join(sorted({"%s: %s" % (d["helper"], l) for d in devs for l in d["literal"]})))
@@ -320,9 +338,11 @@ def _run(prop, report, tier, seed, scratch):
                 ex, res2 = gen_requests(gd, mode, 0, seed, scratch, maxouts=maxouts)
                 tlc_states += res2.distinct
                 ex.sort(key=_key)
-                if len(ex) > g[mode]:               # deterministic thinning of the exhaustive enumeration
-                    step = len(ex) / g[mode]
-                    ex = [ex[int(i * step)] for i in range(g[mode])]
+                if mode == "edge":                  # the one-output requests first, the cap is filled with the others
+                    one = _thin([r for r in ex if len(r["outs"]) == 1], g[mode])
+                    ex = one + _thin([r for r in ex if len(r["outs"]) > 1], g[mode] - len(one))
+                else:
+                    ex = _thin(ex, g[mode])
                 extra[mode] = ex
         n0 = len(reqs)
         for r in got + extra["single"] + extra["full"] + extra["edge"]:
